@@ -1,6 +1,7 @@
 (* Decoding of C01 cases and verdicts. *)
 From Coq Require Import List NArith Bool.
 From FS Require Import Sx Model.Path Model.Stat Model.Tree Model.Diff Model.AbsDest Model.Converge Model.ConvergeA.
+From FS Require Model.Walk.
 Import ListNotations.
 Open Scope N_scope.
 
@@ -111,4 +112,67 @@ Definition run_0101 (input impl : sx) : sx :=
     | _, _, _, _ => v_malformed
     end
   | _, _ => v_malformed
+  end.
+
+(* ------------------------------------------------------------------------------------------
+   kind 0102: HISTORIES.  One on-disk source directory, one fsutil.FS object (NewFS) that is
+   reused for several Send calls (or re-made, a flag of the input); between the syncs the source
+   is edited with real syscalls (replace a name by a new inode through rename, delete, re-create,
+   link, overwrite in place, chmod, rename); every sync goes into the persistent destination or
+   into a fresh one.
+   impl = ((send_err recv_err hung src_raw prior_raw dest_raw) ...), one record per sync: the
+   independent lstat snapshots of the source and of the destination taken just before the sync,
+   and of the destination after it.  Nothing of the input is trusted: the view the sender's FS must
+   expose IS the specification walk (Model/Walk.v spec_stat, C09) of the source snapshot, the old
+   destination listing that of the prior snapshot.  Specification: convergence after EVERY sync. *)
+Definition c01_lrec (d : raw) : Walk.lrec :=
+  {| Walk.l_mode := r_mode d; Walk.l_uid := r_uid d; Walk.l_gid := r_gid d; Walk.l_size := r_size d;
+     Walk.l_mtime := r_mtime d; Walk.l_rdev := r_rdev d; Walk.l_ino := r_ino d; Walk.l_nlink := r_nlink d;
+     Walk.l_target := r_target d; Walk.l_xattrs := r_xattrs d; Walk.l_dev := 0 |}.
+
+Definition c01_listing (snap : list raw) : list entry :=
+  let ls := map (fun d => (r_path d, c01_lrec d)) snap in
+  map (fun d => (Walk.spec_stat ls (r_path d) (c01_lrec d), r_content d)) snap.
+
+(* (holds, diagnostics of the oracle, disagreements with the model) of one sync *)
+Definition c01_sync (one : sx) : option (bool * list sx * list sx) :=
+  match one with
+  | SL [SN se; SN re; SN hung; sr; pr; dr] =>
+    src <- sx_list dec_raw sr ;; prior <- sx_list dec_raw pr ;; dest <- sx_list dec_raw dr ;;
+    let s := c01_listing src in
+    let p := c01_listing prior in
+    let success := N.eqb se 0 && N.eqb re 0 && N.eqb hung 0 in
+    let holds := if success then (if Converge.identity_faithful p s then converged false p s dest else true) else false in
+    let diag := if success then converged_diag false p s dest else [SL [SB []; SN 200]] in
+    let in_domain := wf_entries_b p && wf_entries_b s in
+    let pred := view_x p (receive_t (fun _ => c01_sentinel) Fresh DMetadata p s) in
+    let mdiff := if negb success then []
+                 else if negb in_domain then [SL [SB [110;111;116;45;119;102]]]          (* "not-wf" *)
+                 else c01_model_diff false pred (map obs_of_raw dest) in
+    Some (holds, diag, mdiff)
+  | _ => None
+  end.
+
+Fixpoint c01_syncs (i : N) (l : list sx) : option (bool * list sx * list sx) :=
+  match l with
+  | [] => Some (true, [], [])
+  | one :: r =>
+    x <- c01_sync one ;; y <- c01_syncs (i + 1) r ;;
+    let '(h1, d1, m1) := x in let '(h2, d2, m2) := y in
+    Some (h1 && h2,
+          (match d1 with [] => [] | _ => [SL (SN i :: d1)] end) ++ d2,
+          (match m1 with [] => [] | _ => [SL (SN i :: m1)] end) ++ m2)
+  end.
+
+Definition run_0102 (input impl : sx) : sx :=
+  match impl with
+  | SL (SL _ :: _ as recs) =>
+    match c01_syncs 0 recs with
+    | Some (holds, diag, mdiff) =>
+      let model := match mdiff with [] => impl | _ => SL (SB [109;111;100;101;108] :: mdiff) end in
+      verdict model impl holds (SL (SN 1 :: diag))
+    | None => v_malformed
+    end
+  | SL [] => verdict impl impl true (SL [])          (* a history without a sync *)
+  | _ => verdict impl impl false (SL [SN 3])         (* set-up failure reported by the harness *)
   end.
